@@ -217,3 +217,24 @@ Example newref_fresh_hypotheses_met :
   (forall d, In d (all_mem_dds ex_fr1) -> d_ref d <= f_maxref ex_fr1) /\ fst (newref ex_fr1) = 3.
 Proof. split; [|vm_compute; reflexivity]. intros d Hd. vm_compute in Hd.
   repeat (destruct Hd as [<-|Hd]; [vm_compute; intro; discriminate|]). destruct Hd. Qed.
+
+(** 7. FULL (tie, round 4).  How a session starts and how a refused request ends: Hopen reads the descriptors of an
+    existing file for every access mode except exactly DFACC_CREATE and creates (truncates) only for that mode or for
+    a file that did not exist; Hdupdd goes through HTPcreate, which (model_follows_sources) refuses a tag/ref in use
+    BEFORE claiming a descriptor slot, so a refused request leaves the descriptor blocks untouched. *)
+Theorem session_entry_follows_sources :
+  Hopen_skel =
+    ["if(!path||((acc_mode&7)!=acc_mode))"; "HIget_filerec_node(path)"; "if(acc_mode==4)";
+     "if((acc_mode&2)&&!(file_rec->access&2))"; "else"; "if(acc_mode!=4)"; "if((acc_mode&2)&&(*__errno_location())==2)";
+     "else"; "else"; "HTPstart(file_rec)"; "if(acc_mode==4||new_file)"; "else"; "HTPinit(file_rec,ndds)"; "else"] /\
+  Hdupdd_skel =
+    ["HTPselect(file_rec,old_tag,old_ref)"; "HTPcreate(file_rec,tag,ref)";
+     "HTPinquire(old_dd,((void*)0),((void*)0),&old_off,&old_len)"; "HTPupdate(new_dd,old_off,old_len)"] /\
+  (forall fr t r ot orf, has_dd fr t r = true -> run_op fr (OpDup t r ot orf) = (fr, []) \/
+                         snd (run_op fr (OpDup t r ot orf)) = []).
+Proof. exact session_entry_lemma. Qed.
+Print Assumptions session_entry_follows_sources.
+
+Example session_entry_refused_dup_hypotheses_met :
+  has_dd ex_fr 30 1 = true /\ run_op ex_fr (OpDup 30 1 30 1) = (ex_fr, []).
+Proof. vm_compute. split; reflexivity. Qed.
